@@ -57,7 +57,7 @@ RULE = ("inputs: fixed corpus (CFG shapes of every past finding: constant cjump 
         "replaced value, degenerate control flow: identical arms, arms that become the same empty block, forwarding chains, self loops), "
         "front-end produced modules (c_to_ir of 8 C sources incl. gotos to following labels and empty arms), irgen modules (6 "
         "configurations) optionally pessimised (x+0, constant cjumps, values/phis demoted to stack slots) and rewritten into degenerate "
-        "control flow (degenerate_cfg) and given stack slots whose alloc sits in a non-entry block, mostly inside loops, with loads that may precede every store (local_slots); both rewrites are also applied to front-end and corpus modules. pipelines per input: 9 single passes, api.optimize levels, random "
+        "control flow (degenerate_cfg) and given stack slots whose alloc sits in a non-entry block, mostly inside loops, with loads that may precede every store (local_slots); non-phi instructions are put in front of phis (nonphi_before_phi); the rewrites are also applied to front-end and corpus modules; fixed sequences mem2reg+{tailcall,cjump,clean} on small inputs. pipelines per input: 9 single passes, api.optimize levels, random "
         "sequences of 3..10 passes. evaluation = one pass application whose output differs from its input; distinct non-trivial = distinct "
         "(input, pipeline, step) whose output differs from its input")
 TRUSTED = [
@@ -320,6 +320,51 @@ CORPUS = [
     ("clean-entry-loop-header-phi", K("e2", "(func f global i32 e (params (x i32) (y i32)) (blocks "
      "(block e (const %one i32 1) (binop %z i32 add %x %one) (cjump %z lt %y L X)) (block L (jump L2)) (block L2 (jump e)) "
      "(block X (ret %z))))")),
+    # --- non-phi instructions in front of phis (seeded change 3, see notes) ---
+    # route (b): a constant / undefined / alloc precedes the phi of a join block whose incoming edges a pass edits
+    ("phi-after-const-clean", K("p1", "(func f global i32 A (params (x i32)) (blocks "
+     "(block A (const %z i32 0) (const %c1 i32 11) (const %c2 i32 22) (cjump %x eq %z E F)) "
+     "(block E (jump T)) (block F (binop %y i32 add %x %c1) (jump T)) "
+     "(block T (const %k i32 5) (phi %p i32 (E %c2) (F %y)) (binop %r i32 add %p %k) (ret %r))))")),
+    ("phi-after-const-glue", K("p2", "(func f global i32 A (params (x i32)) (blocks "
+     "(block A (const %z i32 0) (const %c1 i32 11) (cjump %x eq %z B C)) "
+     "(block B (binop %y i32 add %x %c1) (jump M)) (block M (binop %y2 i32 add %y %c1) (cjump %y2 eq %z T C)) "
+     "(block C (jump T)) "
+     "(block T (undef %u i32) (alloc %s 4 4) (phi %p i32 (M %y2) (C %c1)) (phi %q i32 (M %z) (C %x)) "
+     "(binop %r i32 add %p %q) (ret %r))))")),
+    ("phi-after-const-cjump", K("p3", "(func f global i32 e (params (x i32)) (blocks "
+     "(block e (const %z i32 0) (const %one i32 1) (cjump %x lt %z a b)) "
+     "(block a (const %c5 i32 5) (cjump %z eq %z j k)) "
+     "(block b (const %c6 i32 6) (jump k)) "
+     "(block j (const %c9 i32 9) (phi %pj i32 (a %c5)) (binop %rj i32 add %pj %c9) (ret %rj)) "
+     "(block k (const %c7 i32 7) (phi %p i32 (a %c5) (b %c6)) (binop %r i32 add %p %c7) (ret %r))))")),
+    ("phi-after-const-dead-region", K("p4", "(func f global i32 e (params (x i32)) (blocks "
+     "(block e (const %z i32 0) (const %one i32 1) (cjump %one gt %z live d1)) "
+     "(block d1 (jump out)) (block live (jump out)) "
+     "(block out (const %c i32 3) (phi %r i32 (d1 %z) (live %x)) (binop %s i32 add %r %c) (ret %s))))")),
+    # the entry block is a loop header WITH phis (preceded by a constant): TailCallOptimization must leave it alone
+    ("phi-after-const-tailcall-entry", K("p5", "(func g global i32 e (params (n i32) (m i32)) (blocks "
+     "(block e (const %one i32 1) (phi %i i32 (b2 %i1)) (const %z i32 0) (cjump %n gt %m b done)) "
+     "(block b (binop %i1 i32 add %i %one) (cjump %i1 gt %m b2 t)) "
+     "(block b2 (jump e)) "
+     "(block t (fcall %r i32 @g %i1 %m) (ret %r)) "
+     "(block done (ret %i))))")),
+    # route (a): mem2reg puts `undefined` at index 0 of an entry block that is a loop header with phis; the function is
+    # self tail recursive (pipelines mem2reg -> tailcall / clean / cjump)
+    ("phi-entry-loop-slot-tailcall", K("p6", "(func g global i32 e (params (n i32) (m i32)) (blocks "
+     "(block e (phi %i i32 (b2 %i1)) (alloc %s 4 4) (addrof %ps %s) (const %one i32 1) (const %z i32 0) "
+     "(load %v i32 %ps) (binop %nv i32 add %n %v) (cjump %nv gt %m b done)) "
+     "(block b (binop %i1 i32 add %i %one) (cjump %i1 gt %m b2 t)) "
+     "(block b2 (jump e)) "
+     "(block t (fcall %r i32 @g %i1 %m) (ret %r)) "
+     "(block done (store i32 %i %ps) (load %w i32 %ps) (binop %o i32 add %w %i) (ret %o))))")),
+    ("phi-entry-loop-slot-clean-cjump", K("p7", "(func g global i32 e (params (n i32) (m i32)) (blocks "
+     "(block e (phi %i i32 (b2 %i1) (b3 %n)) (alloc %s 4 4) (addrof %ps %s) (const %one i32 1) (const %z i32 0) "
+     "(load %v i32 %ps) (binop %nv i32 add %n %v) (cjump %nv gt %m b done)) "
+     "(block b (binop %i1 i32 add %i %one) (cjump %i1 gt %m b2 c)) "
+     "(block c (cjump %z eq %one b3 b4)) "
+     "(block b2 (jump e)) (block b3 (jump e)) (block b4 (jump done)) "
+     "(block done (store i32 %i %ps) (load %w i32 %ps) (ret %w))))")),
     # --- CleanPass ---
     ("clean-critical-edge", K("k15", "(func f global i32 A (params (x i32)) (blocks "
      "(block A (const %z i32 0) (const %c1 i32 11) (const %c2 i32 22) (cjump %x eq %z E T)) "
@@ -467,6 +512,8 @@ def gen_texts(ctx, n):
         for kk, v in ls.items():
             ctx.count(f"localslot_{kk}", v)
         dg = degenerate_cfg(ctx.rng, tree, 3) if k % 2 == 0 or mode == 2 else {}
+        if k % 2 == 1 or mode == 2:
+            ctx.count("nonphi_before_phi", nonphi_before_phi(ctx.rng, tree))
         for kk, v in dg.items():
             ctx.count(f"degenerate_{kk}", v)
         out.append((f"gen{k}/{'plain' if not mode else 'pess' + str(mode)}{'+dg' if dg else ''}", T.show(tree)))
@@ -486,7 +533,9 @@ def degenerate_texts(ctx, texts, per):
             dg = degenerate_cfg(ctx.rng, tree, 3)
             for kk, v in dg.items():
                 ctx.count(f"degenerate_{kk}", v)
-            if dg or ls:
+            npb = nonphi_before_phi(ctx.rng, tree, 0.7)
+            ctx.count("nonphi_before_phi", npb)
+            if dg or ls or npb:
                 out.append((f"{tag}+dg{k}", T.show(tree)))
     return out
 
@@ -656,6 +705,31 @@ def local_slots(rng, tree, count):
     return done
 
 
+# ---- non-phi instructions in front of phis -------------------------------------------------------------------------
+
+def nonphi_before_phi(rng, tree, prob=0.5):
+    """in blocks that have phis, put fresh (unused) `const` / `undef` / `alloc` instructions in front of or between
+    the phis (well-formedness does not ask for phis to come first; ppci's own mem2reg creates this shape)"""
+    n = 0
+    for fn in T.funcs_of(tree):
+        nm = T.Namer(fn)
+        for b in T.blocks_of(fn):
+            nphi = sum(1 for i in b[2:] if i[0] == "phi")
+            if not nphi or rng.random() > prob:
+                continue
+            last = max(k for k in range(2, len(b)) if b[k][0] == "phi")
+            for _ in range(rng.randint(1, 2)):
+                kind = rng.choice(["const", "undef", "alloc"])
+                v = nm.val("np")
+                ins = {"const": ["const", "%" + v, "i32", str(rng.randint(0, 9))],
+                       "undef": ["undef", "%" + v, "i32"],
+                       "alloc": ["alloc", "%" + v, "4", "4"]}[kind]
+                b.insert(rng.randint(2, last), ins)
+                last += 1
+                n += 1
+    return n
+
+
 # ---- plan / evaluation -----------------------------------------------------------------------------------------------
 
 class Plan:
@@ -682,6 +756,10 @@ def make_plan(ctx, tag, text, pass_set, nseq, levels, with_model):
     for lv in levels:
         steps, outer = run_optimize(tree, lv)
         plan.runs.append(("O" + lv, steps, outer))
+    if len(text) < 3000:
+        # mem2reg puts `undefined` at the top of the entry block (possibly in front of phis): the CFG-editing passes after it
+        for names in (["mem2reg", "tailcall", "clean"], ["mem2reg", "cjump", "clean"], ["mem2reg", "clean", "tailcall"]):
+            plan.runs.append(("seq:" + "+".join(names), run_sequence(tree, names), None))
     pool = list(pass_set) + (["cjump"] if "cjump" not in pass_set else [])
     for k in range(nseq):
         names = [ctx.rng.choice(pool) for _ in range(ctx.rng.randint(3, 9))]
